@@ -605,24 +605,68 @@ def run(ctx):
         only_argerror(ob, v, fx.where, 'address_index')
     with ctx.obligation('C20.VALIDATORS', '__main__ string validators', None, fpa.module.relpath) as ob:
         L = T.len_(val)
-        cases = [('extended_key', T.eq(T.const(111), L), val), ('bip39_seed', T.eq(T.const(128), L), val)]
-        for name, accept, ret in cases:
+
+        def refuses_when(name, negated):
+            """With every accepted size excluded (facts), does the validator refuse on every path?"""
+            fx_ = Facts()
+            for c_ in negated:
+                fx_ = fx_.add(T.not_(c_))
+            v_, _ = Evaluator(p, 'ecdsa').call_function('__main__.' + name, [val], facts=fx_)
+            lv_ = [x for _, x in leaves(v_, (), set(fx_))]
+            return bool(lv_) and all(T.tag(x) == 'raise' for x in lv_)
+
+        def decoded_size_fact(known, leaf, sizes):
+            """The path has pinned the number of bytes the RETURNED text decodes to (bytes.fromhex) to one of `sizes`."""
+            dl = T.len_(X.fromhex(leaf))
+            want = {T.eq(T.const(n_), dl) for n_ in sizes}
+            # facts recorded before the path split speak about the case distinction; on this path they speak about its branch
+            simple = {k for k in known if not T.phi_conditions(k)}
+            known = set(known) | {T.assume(k, simple) for k in known if T.phi_conditions(k)}
+            if len(sizes) == 1 and next(iter(want)) in known:
+                return True
+            return any(T.is_op(k, 'OR') and set(k[2:]) == want for k in known)
+        cases = [('extended_key', T.eq(T.const(111), L), val, None), ('bip39_seed', T.eq(T.const(128), L), val, (64,))]
+        for name, accept, ret, decoded in cases:
             fi = p.get_function('__main__.' + name)
             v, f = ev.call_function('__main__.' + name, [val])
+            sem = None
             for cs, leaf in normal_leaves(v):
-                ob.require(accept in known_at(f, cs), '%s accepts a value whose length was not checked' % name, fi.where,
+                known = known_at(f, cs)
+                ok = accept in known
+                via_decoded = False
+                if not ok and decoded is not None and decoded_size_fact(known, leaf, decoded):
+                    ok = via_decoded = True      # the text handed on decodes to exactly that many bytes
+                if not ok:
+                    if sem is None:
+                        sem = refuses_when(name, [accept])
+                    ok = sem
+                ob.require(ok, '%s accepts a value whose length was not checked' % name, fi.where,
                            expected=T.show(accept), found=[T.show(x) for x in cs])
-                same_term(ob, leaf, ret, '%s returns the value unchanged' % name, fi.where)
+                if via_decoded:
+                    ob.note('%s hands on a normalised text whose decoded size it has checked' % name)
+                else:
+                    same_term(ob, leaf, ret, '%s returns the value unchanged' % name, fi.where)
             ob.require(any(T.tag(l) == 'raise' for _, l in leaves(v)), '%s can refuse' % name, fi.where)
             only_argerror(ob, v, fi.where, name)
         fi = p.get_function('__main__.entropy_hex')
         v, f = ev.call_function('__main__.entropy_hex', [val])
+        sem = None
         for cs, leaf in normal_leaves(v):
             known = known_at(f, cs)
             want = {T.eq(T.const(b), T.mul(T.const(4), L)) for b in (128, 160, 192, 224, 256)}
             ok = any(T.is_op(k, 'OR') and set(k[2:]) == want for k in known)
+            via_decoded = False
+            if not ok and decoded_size_fact(known, leaf, (16, 20, 24, 28, 32)):
+                ok = via_decoded = True
+            if not ok:
+                if sem is None:
+                    sem = refuses_when('entropy_hex', sorted(want))
+                ok = sem
             ob.require(ok, 'entropy_hex accepts a length outside 32/40/48/56/64 hex characters', fi.where)
-            same_term(ob, leaf, val, 'entropy_hex returns the value unchanged', fi.where)
+            if via_decoded:
+                ob.note('entropy_hex hands on a normalised text whose decoded size it has checked')
+            else:
+                same_term(ob, leaf, val, 'entropy_hex returns the value unchanged', fi.where)
         only_argerror(ob, v, fi.where, 'entropy_hex')
         fi = p.get_function('__main__.mnemonic')
         v, f = ev.call_function('__main__.mnemonic', [val])
@@ -631,6 +675,8 @@ def run(ctx):
             known = known_at(f, cs)
             want = {T.eq(T.const(b), words) for b in (12, 15, 18, 21, 24)}
             ok = any(T.is_op(k, 'OR') and set(k[2:]) == want for k in known)
+            if not ok:
+                ok = refuses_when('mnemonic', sorted(want))
             ob.require(ok, 'mnemonic accepts a sentence whose word count is not 12/15/18/21/24', fi.where,
                        found=[T.show(x, maxdepth=3) for x in known][:4])
             # the wallet must be the API's wallet for the sentence that was typed: the validator hands it on as it is
